@@ -1,6 +1,8 @@
 import Driver.Loop
 import AlphaG.Driver.C06
 import AlphaG.Driver.C07
+import AlphaG.Driver.C16
+import AlphaG.Driver.C18
 import AlphaG.Driver.C19
 /-
 Full model driver: every handler of `AlphaG/Driver/*.lean`. Handlers return `none` for
@@ -9,5 +11,7 @@ commands they do not own.
 def main : IO Unit := Driver.run [
   AlphaG.Driver.C06.handle,
   AlphaG.Driver.C07.handle,
+  AlphaG.Driver.C16.handle,
+  AlphaG.Driver.C18.handle,
   AlphaG.Driver.C19.handle
 ]
